@@ -52,3 +52,38 @@ func HDecodeBody() {
 		vr.Cover("c04.body.rejected")
 	}
 }
+
+// HParseHeader (C04): ParseHeader on an arbitrary buffer of length Param(0).
+func HParseHeader() {
+	b := vr.Input(vr.Param(0))
+	h, err := ParseHeader(b)
+	if err == nil {
+		vr.Assert("c04.header.nonnil", h != nil)
+		vr.Cover("c04.header.accepted")
+	} else {
+		vr.Cover("c04.header.rejected")
+	}
+}
+
+// HDecodeMessage (C04): whole-message Decode on an arbitrary buffer of length Param(0).
+func HDecodeMessage() {
+	b := vr.Input(vr.Param(0))
+	m := new(IKEMessage)
+	if err := m.Decode(b); err == nil {
+		vr.Cover("c04.message.accepted")
+	} else {
+		vr.Cover("c04.message.rejected")
+	}
+}
+
+// HDecodeChain (C04): the payload chain walker with an arbitrary first payload type on an arbitrary
+// buffer of length Param(0).
+func HDecodeChain() {
+	b := vr.Input(vr.Param(0))
+	var c IKEPayloadContainer
+	if err := c.Decode(vr.U8(), b); err == nil {
+		vr.Cover("c04.chain.accepted")
+	} else {
+		vr.Cover("c04.chain.rejected")
+	}
+}
